@@ -370,11 +370,13 @@ func runHist(seed, idx uint64, gt uint32) *c05x.EHist {
 		removeTemp, reapply := r.Bool(), false
 		switch p := r.Intn(100); {
 		case afterDelete && (p < 60 || h.sameGenerator): // sibling of the block just deleted
-			x = h.build(true, h.lastDel)
+			// history 0 carries the scripted tail (restart followed by several deletes): no validator-set change there, so that
+			// finality cannot close in on the tip and the floor of the check is met by construction, not by chance
+			x = h.build(idx != 0, h.lastDel)
 		case afterDelete && p < 80: // the very same block object again
 			x, removeTemp, reapply = *h.lastDel, true, true
 		default:
-			x = h.build(true, nil)
+			x = h.build(idx != 0, nil)
 		}
 		ea := h.apply(x, removeTemp, reapply)
 		rec.Steps = append(rec.Steps, ea)
